@@ -131,7 +131,7 @@ func (c *Ctx) Seen(set, member string) {
 // beyond the cap nothing more is counted, which makes both numbers lower bounds (flagged in the evidence).
 func (c *Ctx) Distinct(h uint64, nontrivial bool) {
 	if c.distinct == nil {
-		c.distinct = make(map[uint64]struct{}, 1<<16)
+		c.distinct = map[uint64]struct{}{} // grows on demand: sub-contexts created per history case stay cheap
 		c.distinctCap = 2 << 20
 	}
 	if len(c.distinct) >= c.distinctCap {
